@@ -5,7 +5,7 @@ import math
 from hypothesis import strategies as st
 
 from lib import gens, refgeo, refids
-from lib.runner import Stage, Violation, hyp_drive, guarded
+from lib.runner import Stage, Violation, HarnessError, hyp_drive, guarded
 
 RULE = ("cell x closed_ring in {True,False,omitted} x segments in {omitted,None,'auto',1,2,3,7,16} (24 option sets per cell, "
         "plus options=None and {} and one further explicit segments value per cell from 4..257 around powers of two): all cells of res 0..4 (quick) / 0..6 (thorough) and Hypothesis cells of res 4..29 by id "
@@ -62,10 +62,13 @@ def geometry_checks(ring, cell, res, k, centre, corners, case, L):
     if not area > 0:
         raise Violation("ring_not_counter_clockwise", case, observed=area, expected="> 0")
     if n <= 400:
-        if not refgeo.ring_is_simple(pts):
-            raise Violation("ring_not_simple", case, observed="self-intersection or repeated vertex", expected="simple ring")
-    elif len(set(pts)) != n:        # the O(n^2) crossing test is skipped for very fine rings; repeated vertices are still caught
-        raise Violation("ring_not_simple", case, observed="repeated vertex", expected="simple ring")
+        simple = refgeo.ring_is_simple(pts)
+        if n >= 40 and refgeo.ring_is_simple_grid(pts) != simple:
+            raise HarnessError(f"grid and quadratic simplicity tests disagree on a ring of {n} vertices of {case}")
+    else:
+        simple = refgeo.ring_is_simple_grid(pts)        # bucketed test, cross-checked against the quadratic one on every smaller ring
+    if not simple:
+        raise Violation("ring_not_simple", case, observed="self-intersection or repeated vertex", expected="simple ring")
     # corners of the segments=1 ring occur exactly k apart, same cyclic order
     idx = []
     for c in corners:
